@@ -1107,6 +1107,19 @@ theorem batch_close_consumes_frame (expired : Bool) (v : Nat) (offset : Int) (fu
       simp only [hm, Bool.false_and, Bool.false_eq_true, ↓reduceIte]
       exact hdone hkept
 
+/-- the same for every request/response operation that goes through `(*Conn).do` (C11's operation table over the
+regenerated `readFrom` programs): `Event.finish ok` and `finish kafka` of Model/ConnMux are `Outcome.ok` /
+`Outcome.kafka` of `ConnOps.opRead`, `finish io` is `Outcome.fail`.  For a good operation (expectZeroSize, and a
+kafka error drained or impossible inside the parse) a body that does not fail has consumed its frame to the last
+byte — the byte-level meaning of "`take` removes a frame whole" outside Fetch.  (Corollary of C11's lemmas
+`opRead_adv`, `opRead_not_fail_zero`.) -/
+theorem finish_without_failure_consumes_frame (o : OpSpec) (v : Nat) (topic : Bytes) (s : RS)
+    (hz : o.expectZero = true) (hg : o.drain = true ∨ hasFailList (o.parse v) = false)
+    (hnf : (opRead o v topic s).1.isFail = false) :
+    (opRead o v topic s).2.sz = 0 ∧ (opRead o v topic s).2.inp = s.inp.drop s.sz := by
+  have hzero := opRead_not_fail_zero o v topic s hz hg hnf
+  exact ⟨hzero, ((opRead_adv o v topic s).consumed_all hzero).2⟩
+
 /-- in the kept case with the frame on the stream: what is left is exactly what followed the frame -/
 theorem batch_close_leaves_next_frame (expired : Bool) (v : Nat) (offset : Int) (fuel : Nat) (ops : List Op) (s : RS)
     (hwf : ∀ c s1, runSteps (fetchHeader v) { ver := v } s = (.ok c, s1) → c.hwm = offset → s1.sz = 0)
